@@ -607,6 +607,9 @@ def run(prog, ctx):
     sl_callers = [fi.qual for fi in prog.functions.values() for x in R.calls_in(fi.node, method="set_levels")]
     ctx.check(not sl_callers, "C06.D6", "package::set_levels-unused", "sparseSpACE/*", "set_levels is not called anywhere",
               "set_levels is called from %s: interval levels change outside split / rebalancing" % sl_callers)
+    # ------------------------------------------------------------------ D7 (shared with C03.D3)
+    from .C03 import check_sorted_after_removal
+    check_sorted_after_removal(prog, ctx, "C06.D7")
 
 
 def _related(prog, ci, target):
